@@ -30,7 +30,7 @@ PROPS['C13'] = dict(
                  'an unsupported pair in a play*/generate* call is issued on the twins as well (identical history; the library advances one period before refusing)',
                  'determinism of identically driven instances in one process (C14) with constant-filled fresh heap memory'],
     stages=[
-        dict(name='formats', variant='asan', harness='c13_audio.cpp', quick=6000, thorough=80000, budget=30, opts=dict(units=200000)),
+        dict(name='formats', variant='asan', harness='c13_audio.cpp', quick=9000, thorough=100000, budget=30, opts=dict(units=200000)),
         dict(name='memcheck', variant='plain-d', harness='c13_audio.cpp', quick=64, thorough=2000, budget=150, wall=2400, opts=dict(units=200000),
              wrapper=['valgrind', '-q', '--error-exitcode=79', '--exit-on-first-error=yes', '--track-origins=no', '--leak-check=no']),
     ],
